@@ -139,6 +139,8 @@ func (s *Sched) FreeRun() {
 	s.mu.Unlock()
 }
 
+var dbgStates map[string]int
+
 var gHeader = regexp.MustCompile(`(?m)^goroutine (\d+) \[([^\],]+)`)
 
 // waitingState: the goroutine cannot continue unless another goroutine acts. Only the states of the
@@ -174,6 +176,9 @@ func (s *Sched) WaitQuiescent() bool {
 			states[id] = st
 			if !waitingState(st) {
 				quiet = false
+				if dbgStates != nil {
+					dbgStates[st]++
+				}
 			}
 		}
 		if quiet {
@@ -181,7 +186,9 @@ func (s *Sched) WaitQuiescent() bool {
 			s.mu.Lock()
 			for _, a := range s.actors {
 				if a.state == stRunning {
-					anyRunning = true
+					if _, alive := states[a.gid]; alive {
+						anyRunning = true // still there but not progressing: looks blocked
+					}
 				}
 			}
 			s.mu.Unlock()
